@@ -5,6 +5,7 @@ Each item is processed independently and rendered to a list of strings:
   {"t": "simp", "s": script}          -> [str(expr_simp(build(s)))]
   {"t": "dis",  "b": hex}             -> [intel text, att text, lifted assignment texts (simplified)]
   {"t": "emul", "b": [hex, ...]}      -> dump_id() + ["--"] + dump_mem() after emul_lines
+  {"t": "text", "l": line}            -> [intel text, att text] of the instruction carrying the operands as parsed from the line
   {"t": "asm",  "l": line, "att": 0/1} -> sorted candidate encodings (hex) or ["EXC:<type>"]
 An exception inside an item is part of its output ("EXC:<type>"), never fatal.
 """
@@ -56,6 +57,13 @@ def run_items(items):
                     m = emul_helper.x86_machine()
                     emul_helper.emul_lines(m, lines)
                     out.append(m.dump_id() + ["--"] + m.dump_mem())
+                elif t == "text":
+                    # an instruction whose operands come from the text parser (symbols kept): parse, encode, decode, put the parsed
+                    # operands back and render - the path the repository's own fixpoint test takes for lines with symbols
+                    prefix, name, args = x86mnemo.parse_mnemo(it["l"])
+                    i = x86mnemo.dis(x86mnemo.asm(it["l"])[0])
+                    i.arg = args
+                    out.append([str(i), i.__str__(asm_format="att_syntax binutils")])
                 elif t == "asm":
                     f = x86mnemo.asm_att if it.get("att") else x86mnemo.asm
                     c = f(it["l"])
